@@ -314,6 +314,81 @@ class GatedRelay(Relay):
             self.active -= 1
 
 
+class RealRelayProbe(Relay):
+    """A real slimta relay (StaticSmtpRelay / StaticLmtpRelay against a scripted Downstream)
+    behind a probe that records what the relay reported per recipient. No gates: the I/O is real."""
+
+    def __init__(self, lab, kind):
+        super(RealRelayProbe, self).__init__()
+        from vf.downstream import Downstream
+        from slimta.relay.smtp.static import StaticSmtpRelay, StaticLmtpRelay
+        self.lab = lab
+        self.kind = kind
+        self.active = 0
+        self.plans = {}
+        lmtp = kind == 'lmtp'
+        self.down = Downstream(self._script, lmtp=lmtp, pipelining=lab.rnd.random() < 0.5)
+        cls = StaticLmtpRelay if lmtp else StaticSmtpRelay
+        self.inner = cls('next-hop.test', 25, socket_creator=self.down.creator, ehlo_as='verif.test',
+                         connect_timeout=5.0, command_timeout=5.0, data_timeout=5.0,
+                         idle_timeout=lab.cfg.get('relay_idle'), pool_size=lab.cfg.get('relay_pool_size'))
+
+    def _script(self, ctx, stage):
+        key = (ctx['conn'], ctx['txn'])
+        rnd = self.lab.rnd
+        if stage == 'mail':
+            prof = self.lab.cfg.get('down_profile', ['ok', 'ok', 'mail4', 'mail5', 'rcptmix', 'data4', 'data5',
+                                                     'eod4', 'eod5', 'eodmix', 'close'])
+            if self.lab.draining:
+                prof = ['ok', 'eod5']
+            self.plans[key] = rnd.choice(prof)
+        plan = self.plans.get(key, 'ok')
+        if plan == 'mail4' and stage == 'mail':
+            return ('reply', '451')
+        if plan == 'mail5' and stage == 'mail':
+            return ('reply', '550')
+        if plan == 'rcptmix' and stage.startswith('rcpt'):
+            return rnd.choice([('ok',), ('reply', '450'), ('reply', '550')])
+        if plan == 'data4' and stage == 'data':
+            return ('reply', '451')
+        if plan == 'data5' and stage == 'data':
+            return ('reply', '554')
+        if plan == 'eod4' and stage.startswith('eod'):
+            return ('reply', '452')
+        if plan == 'eod5' and stage.startswith('eod'):
+            return ('reply', '552')
+        if plan == 'eodmix' and stage.startswith('eod'):
+            return rnd.choice([('ok',), ('reply', '450'), ('reply', '550')])
+        if plan == 'close' and stage == 'data':
+            return ('close',)
+        return ('ok',)
+
+    def attempt(self, envelope, attempts):
+        lab = self.lab
+        m = marker(envelope)
+        rc = list(envelope.recipients)
+        lab.log('attempt_start', m, rc, attempts)
+        self.active += 1
+        try:
+            try:
+                out = self.inner.attempt(envelope, attempts)
+            except (TransientRelayError, PermanentRelayError) as ex:
+                kind = 'perm' if isinstance(ex, PermanentRelayError) else 'temp'
+                lab.log('attempt_end', m, rc, kind, {r: (cls_of(ex), reply_of(ex)) for r in rc}, attempts)
+                raise
+            except Exception as ex:
+                lab.log('attempt_end', m, rc, 'exc', {r: ('X', None) for r in rc}, attempts)
+                raise
+            if isinstance(out, dict):
+                d = {r: (cls_of(out.get(r)), reply_of(out.get(r))) for r in rc}
+                lab.log('attempt_end', m, rc, 'map', d, attempts)
+            else:
+                lab.log('attempt_end', m, rc, 'ok', {r: (cls_of(out), reply_of(out)) for r in rc}, attempts)
+            return out
+        finally:
+            self.active -= 1
+
+
 class Lab(object):
     """One history. cfg keys (all optional): backend, store_pool, relay_pool, backoffs,
     profile, gate_p, synth_wait, nmsg, rcpts, null_sender_p, prepop, steps, flush_p,
@@ -418,7 +493,7 @@ class Lab(object):
         self.store = StoreProbe(self, inner, self.native_wait,
                                 bool(cfg.get('synth_wait')) and not self.native_wait,
                                 gate_p=cfg.get('gate_p', 0.0) if yielding else 0.0)
-        self.relay = GatedRelay(self)
+        self.relay = RealRelayProbe(self, cfg['real_relay']) if cfg.get('real_relay') else GatedRelay(self)
         self.backoffs = cfg.get('backoffs', [0, 0, None])
 
         def backoff(env, attempts):
@@ -541,7 +616,7 @@ class Lab(object):
             gevent.idle()
             sig = (st.ops, len(self.events), len(self.parked),
                    getattr(getattr(self, 'bstore', None), 'ops', 0))
-            busy = st.inprog > 0
+            busy = st.inprog > 0 or (isinstance(self.relay, RealRelayProbe) and self.relay.active > 0)
             if not busy and sig == last:
                 stable += 1
             else:
@@ -575,6 +650,13 @@ class Lab(object):
                 self.bounce_q.kill()
         except Exception:
             pass
+        if isinstance(getattr(self, 'relay', None), RealRelayProbe):
+            self.relay.down.kill()
+            for client in list(self.relay.inner.pool):   # (RelayPool.kill() itself mutates the set it iterates)
+                try:
+                    client.kill(block=False)
+                except Exception:
+                    pass
         for g in self.parked:
             g.payload = ('ok', None)
         self.parked = []
